@@ -7,6 +7,7 @@ SMALL_TEMPLATES = [
     {"kind": "int", "lo": -2, "hi": 1}, {"kind": "int", "lo": 0, "hi": 3},
     {"kind": "int", "lo": 3, "hi": 3}, {"kind": "int", "lo": -4, "hi": -2},
     {"kind": "int", "lo": 0, "hi": 6}, {"kind": "int", "lo": -1, "hi": 0},
+    {"kind": "int", "lo": 298, "hi": 301}, {"kind": "int", "lo": -1001, "hi": -1000},   # outside the small-int cache
 ]
 
 
@@ -36,7 +37,7 @@ def random_session(rng, profile="small", solve_calls=("find_answer",), max_produ
     keys = set()
     n_solves = rng.randint(1, 3)
     depth = rng.choice([1, 2, 2, 3, 3, 4])
-    lits = (-3, -1, 0, 1, 2, 5) if profile == "small" else (-41, -7, 0, 3, 40, 80)
+    lits = (-3, -1, 0, 1, 2, 5, 300, -1000) if profile == "small" else (-41, -7, 0, 3, 40, 80)
     for s in range(n_solves):
         for _ in range(rng.randint(0, 3)):
             c = rng.random()
